@@ -11,6 +11,7 @@ from inline_snapshot._source_file import SourceFile
 from ._adapter.adapter import AdapterContext
 from ._adapter.adapter import FrameContext
 from ._change import CallArg
+from ._external import external_name
 from ._global_state import state
 from ._sentinels import undefined
 from ._snapshot.undecided_value import UndecidedValue
@@ -101,6 +102,8 @@ def snapshot(obj: Any = undefined) -> Any:
 
 
 def used_externals(tree):
+    # only calls which look like the references inline-snapshot generates:
+    # a test file can have its own function with the name external
     return [
         n.args[0].value
         for n in ast.walk(tree)
@@ -109,6 +112,8 @@ def used_externals(tree):
         and n.func.id == "external"
         and n.args
         and isinstance(n.args[0], ast.Constant)
+        and isinstance(n.args[0].value, str)
+        and external_name.fullmatch(n.args[0].value)
     ]
 
 
